@@ -11,6 +11,7 @@ import (
 	"fmt"
 	"os"
 	"path/filepath"
+	"runtime/pprof"
 	"sort"
 	"strings"
 )
@@ -128,6 +129,12 @@ func main() {
 	}
 	c := &Ctx{P: p, R: rep, Tier: *tier, Verif: *verif}
 	rep.Note("packages", p.Order...)
+	if pf := os.Getenv("ORBCHECK_PROF"); pf != "" { // development aid: CPU profile of the rules
+		if f, err := os.Create(pf); err == nil {
+			pprof.StartCPUProfile(f)
+			defer pprof.StopCPUProfile()
+		}
+	}
 	for _, rule := range spec.rules {
 		func() {
 			defer func() {
@@ -144,7 +151,9 @@ func main() {
 			fmt.Printf("OBL %s %s %s @%s :: %s\n", o.Verdict, o.Rule, o.Construct, o.Pos, o.Detail)
 		}
 	}
-	os.Exit(finish(rep, *verif, *noEvidence, *expect))
+	rc := finish(rep, *verif, *noEvidence, *expect)
+	pprof.StopCPUProfile()
+	os.Exit(rc)
 }
 
 func finish(rep *Report, verif string, noEvidence bool, expect string) int {
